@@ -11,6 +11,7 @@ def finding(prop, key, what, witness, fid):
 fixed('C08', '703e765', "is_parent_around used '<': a pre-terminal whose adopting parent ties with the saved probability was restored AND re-created, i.e. emitted twice with probability below the saved position",
       {'ruleset': 'A1D1 with group probabilities 0.5/0.3/0.2 x 0.5/0.3/0.2', 'cut': 'quit at the pre-terminal with probability 0.09'}, 'F-C08')
 fixed('C09', '1320342', 'print_banner() began with a bare print(): first stdout line of every run was empty', {'cmd': 'pcfg_guesser.py -r <any> -n 3'}, 'F-C09')
+fixed('C09', '0e5d105', 'error paths of the guesser printed diagnostics to stdout (unwritable .sav message between guesses, --limit validation, "Exiting", loader and OMEN load errors)', {'cmd': 'pcfg_guesser.py -r R -s S  with S.sav being a directory', 'stdout': '[Errno 21] Is a directory: ... / Error writing sessiong restore file'}, 'F-C09b')
 fixed('C12', 'e621645', "generation loop treated 'keypress thread not alive' as quit: EOF, /dev/null, closed stdin or an exception in the status printer truncated the run; with the thread parked between should_exit=True and return a Markov level was abandoned while the run went on",
       {'stdin': ['pipe at EOF', '/dev/null', 'closed fd 0'], 'observed': '48 / 48 / 0 of 4011 guesses'}, 'F-C12')
 fixed('C12', '916fce6', "keypress() returned on an exception from the status report before looking at the input: a 'q' typed while a restored OMEN remainder is replayed (status report indexes grammar['M'] with a level number -> IndexError) never set should_exit", {'history': 'quit inside a Markov level, --load, q during the replayed remainder', 'ruleset': 'fewer entries in pcfg_omen_prob.txt than the interrupted level number'}, 'F-C12b')
